@@ -2,7 +2,7 @@
 // ( 1u << current_channel_index_ ) == 0, which is never true. A disabled channel between two enabled channels is
 // not skipped: with the channel map { 37, 39 } the advertiser also transmits on channel 38.
 //
-// link with: $BT_REPO/tests/test_tools/test_radio.cpp $BT_REPO/tests/test_tools/hexdump.cpp $BT_REPO/tests/test_tools/buffer_io.cpp
+// link with: $BT_REPO/tests/test_tools/test_radio.cpp $BT_REPO/tests/test_tools/test_servers.cpp $BT_REPO/tests/test_tools/hexdump.cpp $BT_REPO/tests/test_tools/buffer_io.cpp
 //            $BT_REPO/tests/test_tools/address_io.cpp $BT_REPO/bluetoe/link_layer/*.cpp $BT_REPO/bluetoe/utility/address.cpp
 #include <iterator>
 #include <tuple>
